@@ -278,3 +278,64 @@ def eq_(a, b):
 
 def count_true(conds):
     return ssum([ite(c, 1, 0) if isinstance(c, SBool) else int(bool(c)) for c in conds])
+
+
+# -- environment-neutral builders (added to both Env classes) ---------------------------------------
+def _sym_build(self, path, bins, b1, b2, cols, upper=True, group="/", dtypes=None, mode="w"):
+    from .model import build_cooler_sym
+    return build_cooler_sym(path, bins, b1, b2, cols, upper, group, dtypes, mode)
+
+
+def _real_build(self, path, bins, b1, b2, cols, upper=True, group="/", dtypes=None, mode="w"):
+    from .model import build_cooler_real
+    return build_cooler_real(path, bins, b1, b2, cols, upper, group, dtypes, mode)
+
+
+def _sym_reset(self):
+    from engine import symh5
+    symh5.reset()
+
+
+def _sym_pd(self):
+    from engine import sympd
+    return sympd
+
+
+def _real_pd(self):
+    import pandas
+    return pandas
+
+
+def _sym_h5(self):
+    from engine import symh5
+    return symh5
+
+
+def _real_h5(self):
+    import h5py
+    return h5py
+
+
+SymEnv.build_cooler = _sym_build
+RealEnv.build_cooler = _real_build
+SymEnv.reset = _sym_reset
+RealEnv.reset = lambda self: None
+SymEnv.pd = property(_sym_pd)
+RealEnv.pd = property(_real_pd)
+SymEnv.h5 = property(_sym_h5)
+RealEnv.h5 = property(_real_h5)
+
+
+def env_pixels(env, n, K, upper=True, prefix="", vlo=1, vhi=9):
+    if env.symbolic:
+        return sym_pixels(n, K, upper, vlo, vhi, prefix)
+    return pixels_from_inputs(env.inputs, K, prefix)
+
+
+def vals(x):
+    """python list of a Series / array / index, symbolic or real"""
+    if hasattr(x, "values") and not isinstance(x, dict):
+        x = x.values
+    if hasattr(x, "arr"):
+        x = x.arr
+    return list(x)
